@@ -356,7 +356,9 @@ pub fn execute(case: &IterCase) -> (RunResult, CaseReport) {
         log_ops: true,
         abort_unwind: false,
         script: vec![],
-        abort_on_cell_race: true,
+        // channel cells are never freed during a run and accesses are physically serialised:
+        // go on after a detected race so that its consequences reach the C09/C10 oracles
+        abort_on_cell_race: false,
     };
     let exec = Exec::new(cfg, n);
     {
